@@ -42,6 +42,18 @@ pub assume_specification<T, P>[ Option::<T>::filter ](o: Option<T>, p: P) -> (r:
 pub uninterp spec fn duration_as_millis(d: core::time::Duration) -> u128;
 pub assume_specification[ core::time::Duration::as_millis ](d: &core::time::Duration) -> (r: u128)
   ensures r == duration_as_millis(*d);
+// `bool::then_some`: assumed std contract
+pub assume_specification<T>[ bool::then_some ](b: bool, t: T) -> (r: Option<T>)
+  ensures r == (if b { Some(t) } else { None::<T> });
+// a point in time (std::time::Instant): opaque; how much time has passed since is unknown
+#[verifier::external_body]
+pub struct Instant { _p: () }
+impl Instant {
+  #[verifier::external_body]
+  pub fn now() -> Instant { unimplemented!() }
+  #[verifier::external_body]
+  pub fn elapsed(&self) -> core::time::Duration { unimplemented!() }
+}
 pub uninterp spec fn duration_is_zero(d: core::time::Duration) -> bool;
 pub assume_specification[ core::time::Duration::is_zero ](d: &core::time::Duration) -> (r: bool)
   ensures r == duration_is_zero(*d);
